@@ -127,7 +127,16 @@ def check_euclid(world: World, f):
             lm, hm, low, high = (ZSym(x).p if not isinstance(x, ZSym) else x.p for x in state)
             return divisible_by_var(lm * ap - low, "n") and divisible_by_var(hm * ap - high, "n")
         s0 = tuple(fr.env[x] for x in names)
-        info["init"] = inv_holds(s0)
+        info["init"] = info.get("init", True) and inv_holds(s0)
+        # the loop leaves with low <= 1; that is low = 1 only if low stays positive, i.e. starts as a residue in [1, n−1]:
+        # the value of some `… % n` (the zero residue having returned early)
+        low0 = s0[2].p if isinstance(s0[2], ZSym) else None
+        is_res = low0 is not None and any(
+            ev["kind"] == "zmod" and (ev["modulus"] - Poly.var("n")).is_zero()
+            and (ev["value"] - ev["modulus"] * ev["quotient"] - low0).is_zero() for ev in it.events)
+        info["residue"] = info.get("residue", True) and is_res
+        if not is_res:
+            info.setdefault("residue_detail", f"low starts as {low0!r} on path {' '.join(w for _c, w in it.oracle.trace) or '(straight)'}")
         # arbitrary state satisfying the invariant
         lm, hm = ZSym(Poly.var("LM")), ZSym(Poly.var("HM"))
         low = ZSym(lm.p * ap - Poly.var("n") * Poly.var("U1"))
@@ -161,13 +170,18 @@ def check_euclid(world: World, f):
 
     def run(it):
         return it.call_func(f, [a, n], {})
-    paths = enumerate_paths(world, run, while_hooks={f.qualname: hook})
+    # the loop may live in a callee (a memoising or type-dispatching wrapper around the routine): any loop met is held to the schema
+    paths = enumerate_paths(world, run, while_hooks={"*": hook})
     early = [p for p in paths if p.outcome == "return" and isinstance(p.value, int) and p.value == 0
              and not any(ev["kind"] == "zdiv" for ev in p.events)]
     loopp = [p for p in paths if p.outcome == "return" and isinstance(p.value, ZSym)]
-    res.append(("a ≡ 0 returns 0 before the loop (inv0)", len(early) == 1 and _zero_test_ok(early[0]),
-                f"{len(early)} early-return path(s)"))
+    other = [p for p in paths if p not in early and p not in loopp]
+    res.append(("a ≡ 0 returns 0 before the loop (inv0)", len(early) >= 1 and all(_zero_test_ok(e) for e in early) and not other,
+                f"{len(early)} early-return path(s)" + (f"; {len(other)} path(s) neither return 0 early nor the loop result: "
+                                                         f"{other[0].outcome} {show(other[0].value)[:60]}" if other else "")))
     res.append(("invariant lm·a ≡ low, hm·a ≡ high (mod n) holds initially", info.get("init") is True, ""))
+    res.append(("low enters the loop as a residue a % n in [1, n−1] (a negative or unreduced start would leave the loop with low ≠ 1)",
+                info.get("residue") is True, info.get("residue_detail", "")))
     res.append(("invariant preserved by the loop body for every quotient", info.get("preserved") is True, ""))
     res.append(("loop runs while low > 1; low is replaced by high mod low (< low) and (hm, high) by (lm, low): terminates",
                 info.get("decreases") is True and info.get("rotates") is True and info.get("cond") in ("low>1", "1<low", "low>=2", "2<=low"),
@@ -225,9 +239,31 @@ class PowSym(AbstractValue):
         return _PowClass(self.owner)
 
 
-class _SelfData:
+class _SelfData(AbstractValue):
+    """the stored representative (.n / .coeffs) of a formal power"""
+    sort = "int"
+
     def __init__(self, ps):
         self.ps = ps
+
+    def v_pow3(self, args, it):
+        """pow(self.n, e, field_modulus): the representative of self^e, provided e >= 0 on this path (a negative exponent
+        would make the builtin compute an inverse) and the modulus is the field's"""
+        from .ranges import interval_of_facts
+        if len(args) != 3 or args[0] is not self:
+            raise AnalysisError("three-argument pow on a formal power in exponent or modulus position")
+        _b, e, m = args
+        if not (isinstance(m, Term) and m.op == "var" and m.args[0] == "field_modulus"):
+            raise AnalysisError(f"three-argument pow with modulus {show(m)[:60]}, expected the field modulus")
+        if isinstance(e, Term):
+            lo, _hi, _h, _o = interval_of_facts(list(it.facts.items()), e)
+            if e.op == "mod":
+                lo = max(lo, 0)       # a residue modulo (field_modulus − c), c <= 1, is not negative
+            if lo < 0:
+                raise AnalysisError(f"three-argument pow with a possibly negative exponent {show(e)[:60]}")
+        elif not isinstance(e, int) or e < 0:
+            raise AnalysisError(f"three-argument pow with exponent {e!r}")
+        return _SelfData(PowSym(self.ps.e * exponent_poly(e), self.ps.owner))
 
 
 class _PowClass:
